@@ -30,6 +30,7 @@ type sub struct {
 	id         int
 	mode       int // 0 prompt, 1 slow, 2 stalled until resume
 	dead       bool // stalled, cancelled, and never read again
+	subInvTime time.Time
 	willCancel bool
 	cancelAt   time.Duration
 	joinAt     time.Duration
@@ -132,6 +133,7 @@ func body(s *simrt.Sim, tier string) {
 				s.Sleep(sb.joinAt)
 			}
 			sb.subInvoke = s.Stamp()
+			sb.subInvTime = time.Now()
 			s.Logf("subscribe s%d mode %d", sb.id, sb.mode)
 			b.Subscribe(sb.ctx, sb.ch)
 			if closeReturn.Load() != 0 {
@@ -282,6 +284,12 @@ func body(s *simrt.Sim, tier string) {
 			c := valCall[r.val]
 			if seen[r.val] > 1 {
 				s.Fail("delivered-twice", fmt.Sprintf("subscriber %d received value %d (key %s) %d times", sb.id, r.val, c.key, seen[r.val]))
+			}
+			// a value is sent to the subscribers of the moment its interval ends; without stalled subscribers to hold a
+			// delivery up that moment is at most interval + injected delay after the Batch call returned, so somebody
+			// who asked to subscribe only after that can never be handed this value (by whatever detour)
+			if !anyStall && !flood && !sb.subInvTime.IsZero() && sb.subInvTime.After(c.retTime.Add(interval+maxDelay+time.Millisecond)) {
+				s.Fail("stale-value-delivered", fmt.Sprintf("subscriber %d asked to subscribe %v after Batch(%s,%d) had returned and yet received that value (interval %v)", sb.id, sb.subInvTime.Sub(c.retTime), c.key, c.val, interval))
 			}
 			if r.at.Before(c.invTime.Add(interval - early)) {
 				s.Fail("early", fmt.Sprintf("value %d delivered %v after its Batch call, interval is %v", r.val, r.at.Sub(c.invTime), interval))
